@@ -119,7 +119,10 @@ def _oracle_names(inputs, kind, val, env):
                     # directory claims it: then neither sanitising nor the '(n)' counter has a say)
                     stem = m.group(1)
                     plain = re.fullmatch(r"[A-Z0-9]+( [A-Z0-9]+)*", stem) is not None
-                    claimed = [x for x in names if x not in (n, other) and (x.strip() == stem or (PAIR.match(x) and PAIR.match(x).group(1) == stem))]
+                    # "claims": its export name could come out as the stem - judged on the name with everything but letters, digits and inner
+                    # blanks removed (the sanitiser drops / replaces the rest: 'PAD.' is exported as 'PAD')
+                    norm = lambda t: " ".join(re.sub(r"[^A-Z0-9 ]", " ", t).split())
+                    claimed = [x for x in names if x not in (n, other) and (norm(x) == stem or (PAIR.match(x) and norm(PAIR.match(x).group(1)) == stem))]
                     if plain and not claimed and not fl[0].endswith("/" + stem + ".wav"):
                         bad.append(f"C05.pair-named-after-the-common-stem({n!r},{other!r}: written as {fl[0]!r})")
     # a sample that is not half of a pair is exported as its own mono file
